@@ -32,7 +32,7 @@ func init() {
 		Flavours: releaseThenGo126,
 		Required: []string{"kind/legacy", "kind/legacy+version", "kind/BytesValue", "kind/StringValue", "kind/BytesValue+version",
 			"body/0", "body/1", "body/70000", "ver/len=0", "ver/len=16", "ver/interior-NUL", "chunk/whole", "chunk/one-byte", "chunk/random", "chunk/data+EOF", "chunk/zero-reads",
-			"stream/frames=1", "stream/frames>=4", "stream/eof-after-last", "target/reused", "target/reused-for-empty-body", "stream/frame>1MiB-followed-by-frames", "reader/std-type", "writer/std-type", "concurrent/own-writers-and-readers", "legacy/marshal-returns-own-slice", "marshal/rejected-message-then-valid-one"},
+			"stream/frames=1", "stream/frames>=4", "stream/eof-after-last", "target/reused", "target/reused-for-empty-body", "stream/frame>1MiB-followed-by-frames", "reader/std-type", "writer/std-type", "concurrent/own-writers-and-readers", "legacy/marshal-returns-own-slice", "reader/has-Len-meaning-buffered-now", "marshal/rejected-message-then-valid-one"},
 		Families: func(c *mon.Config) []mon.Family {
 			return []mon.Family{
 				{Name: "cold-start", N: 1, Serial: true, Run: func(w *mon.W, _ int) {
@@ -197,6 +197,14 @@ func c06CheckStream(w *mon.W, cases []pbCase, frames [][]byte, mode int, reuse b
 	if mode < chNModes {
 		c := newChunkReader(stream, mode, w.Rng)
 		cr, delivered, modeName = c, func() int { return c.delivered }, chNames[mode]
+		if n, _ := w.State["c06len"].(int); n&1 == 1 {
+			// every other stream: the same reader, but with a Len() method that reports what is buffered right now
+			cr = lenReader{c}
+			w.Bucket("reader/has-Len-meaning-buffered-now")
+		}
+		if n, _ := w.State["c06len"].(int); true {
+			w.State["c06len"] = n + 1
+		}
 	} else {
 		sr := stdReaders(stream)[(mode-chNModes)%c06NStd]
 		cr, delivered, modeName = sr.r, sr.consumed, sr.name
